@@ -116,6 +116,30 @@ func valueNonNeg(v ssa.Value) bool {
 // len(x) % 2 == 0 (established on an edge or by a validator), i + 1 < len(x) holds as well.
 func evenLoopFacts(e *Env, at ssa.Instruction, facts []Fact) []Fact {
 	var out []Fact
+	// a list consumed two at a time: from  L − 2·K − 1 ≥ 0  (the rest is not empty) and L even follows  L − 2·K − 2 ≥ 0
+	for _, f := range facts {
+		if !f.Lin || f.LE.k != -1 || len(f.LE.c) != 2 {
+			continue
+		}
+		la, it := "", ""
+		for a, k := range f.LE.c {
+			switch {
+			case k == 1 && strings.HasPrefix(a, "len("):
+				la = a
+			case k == -2 && strings.HasPrefix(a, "iter("):
+				it = a
+			}
+		}
+		if la == "" || it == "" {
+			continue
+		}
+		for _, g := range facts {
+			if !g.Lin && g.Pos && (g.Atom == "zero(("+la+" % 2))" || g.Atom == "zero("+la+" % 2)") || g.Lin && g.LE.String() == "- ("+la+" % 2)" {
+				out = append(out, Fact{Lin: true, LE: f.LE.addK(-1), Why: "parity: " + la + " even, consumed two at a time, rest not empty"})
+				break
+			}
+		}
+	}
 	for _, b := range e.Fn.Blocks {
 		for _, in := range b.Instrs {
 			ph, ok := in.(*ssa.Phi)
